@@ -137,6 +137,14 @@ def gen_case(rng, it, tier):
         e[-1] = np.nan
         e[n // 2] = np.nan
     explicit = bool(it % 2)
+    if it % 3 == 1 and n > 0 and np.isnan(e).any():
+        # missing values as arithmetic produces them (sign bit set), not only np.nan
+        with np.errstate(all="ignore"):
+            negnan = [-np.nan, np.log(-1.0), np.inf - np.inf, np.float64(0.0) * -np.inf][
+                (it // 3) % 4]
+        e = e.copy()
+        e[np.isnan(e)] = negnan
+        tags.append("nan:sign-bit-set")
     if it % 19 == 7 and n >= 3:
         # one coefficient tiny but not zero, acting on a level that dwarfs the innovations
         # (a series far from its mean): its term is as large as the others
@@ -401,18 +409,27 @@ def run(ctx):
             run_reject(ctx, {"kind": "reject", "what": "order",
                              "phi": [] if it % 4 == 0 else (np.ones(11) * 0.05).tolist(),
                              "e": e})
+            # ... also when the series has exactly as many steps as there are
+            # coefficients (11, 12, 16 ...)
+            od = [11, 12, 16, 20, 11][it // 2 % 5]
+            run_reject(ctx, {"kind": "reject", "what": "order",
+                             "phi": (np.ones(od) * 0.04).tolist(),
+                             "e": rng.normal(size=od)})
         else:
             phi = (rng.normal(size=int(rng.integers(1, 11))) * 0.1)
             c = {"kind": "reject", "what": "nan-param", "phi": phi, "e": e}
             k = it % 3
+            with np.errstate(all="ignore"):
+                nan_ = [np.nan, -np.nan, float(np.log(-1.0)), float(np.inf - np.inf)][
+                    (it // 3) % 4]
             if k == 0:
-                phi[int(rng.integers(0, len(phi)))] = np.nan
+                phi[int(rng.integers(0, len(phi)))] = nan_
             elif k == 1:
-                c["mean"] = float("nan")
+                c["mean"] = float(nan_)
                 if it % 2:
                     c["ini"] = float(rng.normal())     # explicit finite initial value
             else:
-                c["ini"] = float("nan")
+                c["ini"] = float(nan_)
                 if it % 2:
                     c["mean"] = float(rng.normal())
             run_reject(ctx, c)
